@@ -68,8 +68,9 @@ class Point:
 
 
 class Execution:
-    def __init__(self, bodies, prefix, trace_filter, watchdog=60.0, record_where=False):
+    def __init__(self, bodies, prefix, trace_filter, watchdog=60.0, record_where=False, point_guard=None):
         self.bodies = bodies
+        self.guard = point_guard  # () -> bool: False = this event is NOT a scheduling point (e.g. a real lock is held)
         self.prefix = list(prefix)
         self.filter = trace_filter
         self.watchdog = watchdog
@@ -102,6 +103,8 @@ class Execution:
     def _point(self, tid, frame):
         if self.current != tid:
             self.harness_error = f"thread {tid} ran while {self.current} held the baton"
+        if self.guard is not None and not self.guard():
+            return
         others = sorted(t for t in self.alive if t != tid)
         if not others:
             return
@@ -127,6 +130,7 @@ class Execution:
     def _runner(self, tid):
         self.sems[tid].acquire()
         flt = self.filter
+        by_code = hasattr(flt, "by_code")  # optional finer filter: level decided per code object
         point = self._point
 
         def local(frame, event, arg):
@@ -136,7 +140,7 @@ class Execution:
 
         def glob(frame, event, arg):
             if event == "call":
-                lvl = flt(frame.f_code.co_filename)
+                lvl = flt.by_code(frame.f_code) if by_code else flt(frame.f_code.co_filename)
                 if lvl:
                     point(tid, frame)
                     return local if lvl == 2 or lvl is True else None
@@ -176,7 +180,7 @@ class Execution:
         return sum(1 for p in self.points[:i] if p.running_enabled and p.chosen != 0)
 
 
-def explore(bodies_factory, trace_filter, bound, check, prefix=(), stats=None, limit=None):
+def explore(bodies_factory, trace_filter, bound, check, prefix=(), stats=None, limit=None, point_guard=None, record_where=False):
     """Depth-first exploration of every schedule extending `prefix` with at most `bound`
     preemptions.  bodies_factory() -> fresh list of thread bodies for one execution.
     check(execution) is called for every complete execution; it returns a violation
@@ -189,7 +193,7 @@ def explore(bodies_factory, trace_filter, bound, check, prefix=(), stats=None, l
     stack = [list(prefix)]
     while stack:
         pre = stack.pop()
-        x = Execution(bodies_factory(), pre, trace_filter).run()
+        x = Execution(bodies_factory(), pre, trace_filter, point_guard=point_guard, record_where=record_where).run()
         stats["executions"] += 1
         stats["points_max"] = max(stats["points_max"], len(x.points))
         v = check(x)
@@ -209,9 +213,9 @@ def explore(bodies_factory, trace_filter, bound, check, prefix=(), stats=None, l
     return stats
 
 
-def children(bodies_factory, trace_filter, bound, prefix=()):
+def children(bodies_factory, trace_filter, bound, prefix=(), point_guard=None):
     """Run `prefix` once and return (execution, list of child prefixes within the bound)."""
-    x = Execution(bodies_factory(), list(prefix), trace_filter).run()
+    x = Execution(bodies_factory(), list(prefix), trace_filter, point_guard=point_guard).run()
     ch = x.choices
     out = []
     for i in range(len(prefix), len(x.points)):
